@@ -72,6 +72,18 @@ def handle (s : Sexp) : String :=
       let t : HoistTarget := ⟨v, lo, hi, st, pre, stmt, post⟩
       answer (hoistValidate t) (hoistApply t)
     | _, _, _, _, _, _, _ => "bad-hoist"
+  | .list [.atom "hoistbound", l, a, b, c] =>
+    match loopOf l, a.nat?, b.nat?, c.nat? with
+    | some l, some a, some b, some c =>
+      let t : HoistBoundTarget := ⟨l, a, b, c⟩
+      answer (hoistBoundValidate t) (hoistBoundApply t)
+    | _, _, _, _ => "bad-hoistbound"
+  | .list [.atom "tile2d", v, lo, hi, st, body, tile, oo, eo, oi, ei] =>
+    match v.nat?, parseExpr lo, parseExpr hi, parseExpr st, stmtList body, tile.int?, oo.nat?, eo.nat?, oi.nat?, ei.nat? with
+    | some v, some lo, some hi, some st, some body, some tile, some oo, some eo, some oi, some ei =>
+      let t : TileTarget := ⟨v, lo, hi, st, body, tile, oo, eo, oi, ei⟩
+      answer (tileValidate t) (tileApply t)
+    | _, _, _, _, _, _, _, _, _, _ => "bad-tile2d"
   | _ => "bad-op"
 
 def main : IO Unit := run handle
